@@ -1,12 +1,12 @@
 #!/bin/sh
 # Blind mixed round: for each change cN of module M, run all of the module's checks in scratch and print verdicts;
 # the labels (labels.txt) are only compared afterwards.  usage: tools/blind.sh <module> <checks...>
-M=$1; shift
+M=$1; shift; P=${BLIND_PREFIX:-M}
 for c in c1 c2 c3 c4; do
-  [ -f /tmp/mut/M_$M/_mixed/$c.diff ] || continue
-  cd /tmp/mut/M_$M && git checkout -q -- src && rm -rf tests && git apply _mixed/$c.diff || { echo "$M $c does not apply"; continue; }
+  [ -f /tmp/mut/${P}_$M/_mixed/$c.diff ] || continue
+  cd /tmp/mut/${P}_$M && git checkout -q -- src && rm -rf tests && git apply _mixed/$c.diff || { echo "$M $c does not apply"; continue; }
   suite=$(CARGO_NET_OFFLINE=true cargo test --offline 2>&1 | grep "test result" | tr '\n' ' ' | grep -c "62 passed; 0 failed.*4 passed; 0 failed")
-  res=$(/verif/tools/eval_scratch.sh /tmp/mut/M_$M quick "$@" | grep -v missed | cut -c1-200 | tr '\n' ';')
+  res=$(/verif/tools/eval_scratch.sh /tmp/mut/${P}_$M quick "$@" | grep -v missed | cut -c1-200 | tr '\n' ';')
   echo "$M $c suite_ok=$suite alarms: ${res:-none}"
   git checkout -q -- src
 done
